@@ -256,6 +256,7 @@ impl<T: FileStore> RecvTransaction<T> {
             final(self).metadata.is_some(),
             final(self).same_except_metadata(*old(self)),
             old(self).inact_live() ==> final(self).inact_live(),
+            final(self).recv_state == old(self).recv_state,
     {
         unimplemented!()
     }
@@ -274,6 +275,10 @@ impl<T: FileStore> RecvTransaction<T> {
 
 pub open spec fn pdu_is_eof_ok(p: PDU) -> bool {
     p.payload matches PDUPayload::Directive(Operations::EoF(e)) && e.condition == Condition::NoError
+}
+
+pub open spec fn pdu_eof_condition(p: PDU) -> Option<Condition> {
+    match p.payload { PDUPayload::Directive(Operations::EoF(e)) => Some(e.condition), _ => None }
 }
 
 pub open spec fn pdu_eof_size(p: PDU) -> u64 {
